@@ -102,6 +102,17 @@ def iter_shapes(tier):
         for e in (f, ("neg", f), ("add", f, B)):
             for node in (("calc", X, "d", e), ("sort", X, ((e, True),)), ("sel", X, ("gt", e, ("lit", "$k1"))), ("sel", X, ("not", ("le", B, e)))):
                 progs.append((node, {"$k1": [None, None]} if "$k1" in repr(node) else {}, []))
+    # operations inserted upstream of a transfer by backtracking (preferred engine = the source engine): what the factories
+    # accept must still execute
+    AB = ("add", A, B)
+    T2 = ("xfer", X, "it2")
+    back = ("it1", True, False, False)
+    for mid in (("calc", T2, "d", AB), ("sel", ("calc", T2, "d", AB), ("gt", ("ref", "d"), ("lit", "$k1"))), ("sort", ("calc", T2, "d", AB), ((("ref", "d"), True),)),
+                ("dedup", ("calc", T2, "d", ("neg", A)))):
+        for fin in (("proj", mid, ("a", "c", "d"), back), ("proj", mid, ("d",), back), ("proj", mid, ("a", "b"), back),
+                    ("sel", mid, ("gt", ("ref", "d"), A), back), ("sort", mid, ((("ref", "d"), False), (B, True)), back),
+                    ("calc", mid, "e", ("mul", ("ref", "d"), ("lit", 2)), back), ("proj", ("proj", mid, ("a", "b", "d")), ("d",), back)):
+            progs.append((fin, {"$k1": [None, None]} if "$k1" in repr(fin) else {}, []))
     more = []
     for node, params, cons in progs:
         more.append((("mat", node, "m"), params, cons))
